@@ -119,6 +119,71 @@ def with_var(fn, dim_names):
     return assignments(ifs[0].orelse, "new_var", dim_names, 1)
 
 
+# ----------------------------------------------------------------------------- Povm / MProcess equality arithmetic
+def povm_eq(fn, src_name, dim_owner):
+    """`size = dim**2; m = len(V); c = hstack([array([sqrt(dim)/m]), zeros(size-1)]); a_bar = np.sum(np.array(V), axis=0)/m;
+    for vec in V: new_vec = <+/- expression in vec, a_bar, c>` -> Lean entry formula at (x, i)"""
+    env = {}
+    loop = None
+    for st in fn.body:
+        if isinstance(st, ast.Assign) and len(st.targets) == 1 and isinstance(st.targets[0], ast.Name):
+            env[st.targets[0].id] = st.value
+        if isinstance(st, ast.For) and isinstance(st.target, ast.Name) and st.target.id == "vec":
+            loop = st
+    if loop is None or ast.unparse(loop.iter) != src_name:
+        raise Untranslatable(f"{fn.name}: loop `for vec in {src_name}` not found")
+    for nm, want in (("size", f"{dim_owner}.dim ** 2"), ("m", f"len({src_name})")):
+        if nm not in env or ast.unparse(env[nm]) != want:
+            raise Untranslatable(f"{fn.name}: {nm} is not `{want}`")
+    ab = env.get("a_bar")
+    if ab is None or ast.unparse(ab) != f"np.sum(np.array({src_name}), axis=0) / m":
+        raise Untranslatable(f"{fn.name}: a_bar is {ast.unparse(ab) if ab is not None else None}")
+    c = env.get("c")
+    ok = isinstance(c, ast.Call) and ast.unparse(c.func) == "np.hstack" and len(c.args) == 1 and isinstance(c.args[0], ast.List) \
+        and len(c.args[0].elts) == 2
+    if ok:
+        first, second = c.args[0].elts
+        ok = isinstance(first, ast.Call) and ast.unparse(first.func) == "np.array" and isinstance(first.args[0], ast.List) \
+            and len(first.args[0].elts) == 1 and ast.unparse(first.args[0].elts[0]) == f"np.sqrt({dim_owner}.dim) / m" \
+            and isinstance(second, ast.Call) and ast.unparse(second.func) == "np.zeros" and ast.unparse(second.args[0]) == "size - 1"
+    if not ok:
+        raise Untranslatable(f"{fn.name}: c is not hstack([array([sqrt(dim)/m]), zeros(size-1)])")
+    body = [st for st in loop.body if isinstance(st, ast.Assign) and isinstance(st.targets[0], ast.Name) and st.targets[0].id == "new_vec"]
+    apps = [st for st in loop.body if isinstance(st, ast.Expr) and ast.unparse(st.value) == "new_vecs.append(new_vec)"]
+    if len(body) != 1 or len(apps) != 1 or len(loop.body) != 2:
+        raise Untranslatable(f"{fn.name}: loop body is not `new_vec = ...; new_vecs.append(new_vec)`")
+    terms = {"vec": "vecs.get x i", "a_bar": "((fsum m fun x' => vecs.get x' i) / (m : R))",
+             "c": "(if i.val = 0 then t / (m : R) else 0)"}
+
+    def ex(e):
+        if isinstance(e, ast.Name) and e.id in terms:
+            return terms[e.id]
+        if isinstance(e, ast.BinOp) and isinstance(e.op, (ast.Add, ast.Sub)):
+            return f"({ex(e.left)} {'+' if isinstance(e.op, ast.Add) else '-'} {ex(e.right)})"
+        raise Untranslatable(f"{fn.name}: new_vec expression {ast.unparse(e)}")
+    return ex(body[0].value)
+
+
+def mprocess_eq(fn, src_expr):
+    """`vec = zeros(dim**2); for hs in hss: vec += hs[0]; vec[0] -= 1; for hs in hss: hs[0] -= vec / len(hss); new_hss.append(hs)`"""
+    stmts = [st for st in fn.body if not (isinstance(st, ast.Expr) and isinstance(st.value, ast.Constant))]
+    txt = [ast.unparse(st) for st in stmts]
+    want = ["dim = " + ("self.composite_system.dim" if "self.hss" in src_expr else "c_sys.dim"),
+            "hss = " + src_expr,
+            "vec = np.zeros(dim ** 2)",
+            "for hs in hss:\n    vec += hs[0]",
+            "vec[0] -= 1",
+            "new_hss = []",
+            "for hs in hss:\n    hs[0] -= vec / len(hss)\n    new_hss.append(hs)"]
+    if txt[:len(want)] != want:
+        for a, b in zip(txt, want):
+            if a != b:
+                raise Untranslatable(f"{fn.name}: expected `{b}` but found `{a}`")
+        raise Untranslatable(f"{fn.name}: body too short")
+    return ("(fsum m fun x' => fsum n fun a' => if a'.val = 0 then hss.get x' a' b else 0) - (if b.val = 0 then 1 else 0)",
+            "if a.val = 0 then hss.get x a b - vec.get b / (m : R) else hss.get x a b")
+
+
 def translate():
     st = ast.parse(open(os.path.join(REPO, "quara", "objects", "state.py")).read())
     gt = ast.parse(open(os.path.join(REPO, "quara", "objects", "gate.py")).read())
@@ -130,6 +195,14 @@ def translate():
     copied_from(f, "hs", "self.hs")
     g_obj = nested(assignments(f.body, "hs", {"self"}, 2), "hs.get a b")
     g_var = nested(with_var(method(gt, "Gate", "calc_proj_eq_constraint_with_var"), {"c_sys"}), "var.get k")
+
+    pt = ast.parse(open(os.path.join(REPO, "quara", "objects", "povm.py")).read())
+    mt = ast.parse(open(os.path.join(REPO, "quara", "objects", "mprocess.py")).read())
+    p_obj = povm_eq(method(pt, "Povm", "calc_proj_eq_constraint"), "self.vecs", "self")
+    p_var = povm_eq(method(pt, "Povm", "calc_proj_eq_constraint_with_var"), "vecs", "c_sys")
+    mv_o, mr_o = mprocess_eq(method(mt, "MProcess", "calc_proj_eq_constraint"), "[hs.copy() for hs in self.hss]")
+    mv_v, mr_v = mprocess_eq(method(mt, "MProcess", "calc_proj_eq_constraint_with_var"),
+                             "convert_var_to_hss(c_sys, var, on_para_eq_constraint=on_para_eq_constraint)")
 
     def fix(body, rank):
         # index variables are Fin values in the generated definitions
@@ -168,6 +241,28 @@ def gateEqObj (dim : Nat) (hs : Mat R n n) : Mat R n n :=
 /-- `Gate.calc_proj_eq_constraint_with_var` on the flat variable vector -/
 def gateEqVar (dim : Nat) (flag : Bool) (var : Vec R N) : Vec R N :=
   if flag then var else Vec.ofFn fun k => {g_var_l}
+
+section arith
+variable [Add R] [Sub R] [Div R] [NatCast R] {{m : Nat}}
+
+/-- `Povm.calc_proj_eq_constraint`: `new_vec = vec - a_bar + c` (`t` = `np.sqrt(dim)`) -/
+def povmEqObj (t : R) (vecs : Mat R m n) : Mat R m n :=
+  Mat.ofFn fun x i => {p_obj}
+
+/-- `Povm.calc_proj_eq_constraint_with_var` after `convert_var_to_vecs` -/
+def povmEqVar (t : R) (vecs : Mat R m n) : Mat R m n :=
+  Mat.ofFn fun x i => {p_var}
+
+/-- `MProcess.calc_proj_eq_constraint`: `vec = Σ hs[0]; vec[0] -= 1; hs[0] -= vec / len(hss)` -/
+def mprocessEqObj (hss : Vector (Mat R n n) m) : Vector (Mat R n n) m :=
+  let vec : Vec R n := Vec.ofFn fun b => {mv_o.replace("hss.get x' a' b", "(hss[x']).get a' b")}
+  Vector.ofFn fun x => Mat.ofFn fun a b => {mr_o.replace("hss.get x a b", "(hss[x]).get a b")}
+
+/-- `MProcess.calc_proj_eq_constraint_with_var` after `convert_var_to_hss` -/
+def mprocessEqVar (hss : Vector (Mat R n n) m) : Vector (Mat R n n) m :=
+  let vec : Vec R n := Vec.ofFn fun b => {mv_v.replace("hss.get x' a' b", "(hss[x']).get a' b")}
+  Vector.ofFn fun x => Mat.ofFn fun a b => {mr_v.replace("hss.get x a b", "(hss[x]).get a b")}
+end arith
 
 end QGen.C04
 '''
